@@ -481,7 +481,11 @@ def parameters(rep, idx, P, sig, icls):
             want = ct.norm(ct.parse("frozenset(Feature(f) for f in features)"))
             raw = ('name', 'features')
             leaks = sv == raw or (sv[0] == 'phi' and raw in (sv[2], sv[3]))
-            rep.form(sv == want, "C20.4", init.site, f"{sig.qual} stores its features as a frozenset of Feature members",
+            # converted whatever is iterated: frozenset(Feature(x) for x in <anything built from the argument>)
+            conv = sv[0] == 'call' and sv[1] == ('name', 'frozenset') and len(sv[2]) == 1 and sv[2][0][0] == 'gen' and \
+                len(sv[2][0][3]) == 1 and not sv[2][0][3][0][2] and \
+                sv[2][0][2] == ('call', ('name', 'Feature'), (sv[2][0][3][0][0],), ()) and ir.mentions(sv[2][0][3][0][1], raw)
+            rep.form(sv == want or conv, "C20.4", init.site, f"{sig.qual} stores its features as a frozenset of Feature members",
                      f"stores {ir.show(sv)[:100]}",
                      wrong=("for some inputs the caller's collection is stored unconverted: features given by value (frozenset({'err'})) are "
                             "then not Feature members, `Feature.ERR in self.features` is false, the optional signal is missing, and the "
